@@ -28,7 +28,7 @@ OPS = ["write", "load", "sign_mem", "sign_mem", "gpg_file", "rewrite_loaded", "l
 
 def plan(tier, seed):
     q = tier == "quick"
-    specs = [{"kind": "hist", "count": 20 if q else 200, "steps": 8 if q else 20} for _ in range(8 if q else 16)]
+    specs = [{"kind": "hist", "count": 50 if q else 500, "steps": 8 if q else 20} for _ in range(12 if q else 24)]
     specs.append({"kind": "repodata", "count": 6 if q else 100})
     specs.append({"kind": "gnupg_hist", "count": 2 if q else 20, "shim": True})
     specs.append({"kind": "values", "count": 300 if q else 8000})
